@@ -75,6 +75,15 @@ Theorem c03_used_le_max_per_quota : forall cfg ops,
 Proof. exact used_le_max_flag. Qed.
 Print Assumptions c03_used_le_max_per_quota.
 
+(* 4''. What the ghost flag means: one operation sets the flag of a quota only if its own max is
+       lowered, an already-bound pod is replayed at or below it, or a child quota is created under
+       it while parent checking is off. *)
+Theorem c03_flag_origin : forall cfg st o q',
+  In q' (quotas (fst (step cfg st o))) -> q_taint q' = true ->
+  was_tainted st (q_id q') \/ taint_reason cfg st o (q_id q').
+Proof. exact taint_origin. Qed.
+Print Assumptions c03_flag_origin.
+
 (* 5. The invariant behind 3 and 4 is kept by every single operation in every state; [FL] is the
       part about an admission check whose Reserve is still to come: whatever informer events
       happen in between, charging the pod afterwards keeps every quota the check covered within
